@@ -188,11 +188,19 @@ impl Transport {
     /// implementations.
     pub async fn read(&self, path: &str) -> Result<Bytes> {
         self.record(Verb::Read, path);
+        #[cfg(feature = "verif_hooks")]
+        if let Some(result) = verif_hook::intercept(self, "read", path, None).map(|r| r.map(|_| Bytes::new())) {
+            return result;
+        }
         self.protocol.read(path).await
     }
 
     pub async fn list_dir(&self, relpath: &str) -> Result<Vec<DirEntry>> {
         self.record(Verb::ListDir, relpath);
+        #[cfg(feature = "verif_hooks")]
+        if let Some(result) = verif_hook::intercept(self, "list_dir", relpath, None).map(|r| r.map(|_| Vec::new())) {
+            return result;
+        }
         self.protocol.list_dir(relpath).await
     }
 
@@ -217,29 +225,49 @@ impl Transport {
 
     pub async fn write(&self, relpath: &str, content: &[u8], mode: WriteMode) -> Result<()> {
         self.record(Verb::Write, relpath);
+        #[cfg(feature = "verif_hooks")]
+        if let Some(result) = verif_hook::intercept(self, "write", relpath, Some(content)) {
+            return result;
+        }
         self.protocol.write(relpath, content, mode).await
     }
 
     pub async fn create_dir(&self, relpath: &str) -> Result<()> {
         self.record(Verb::CreateDir, relpath);
+        #[cfg(feature = "verif_hooks")]
+        if let Some(result) = verif_hook::intercept(self, "create_dir", relpath, None) {
+            return result;
+        }
         self.protocol.create_dir(relpath).await
     }
 
     /// Return mtime, size, and other metadata about a file.
     pub async fn metadata(&self, relpath: &str) -> Result<Metadata> {
         self.record(Verb::Metadata, relpath);
+        #[cfg(feature = "verif_hooks")]
+        if let Some(Err(err)) = verif_hook::intercept(self, "metadata", relpath, None) {
+            return Err(err);
+        }
         self.protocol.metadata(relpath).await
     }
 
     /// Delete a file.
     pub async fn remove_file(&self, relpath: &str) -> Result<()> {
         self.record(Verb::RemoveFile, relpath);
+        #[cfg(feature = "verif_hooks")]
+        if let Some(result) = verif_hook::intercept(self, "remove_file", relpath, None) {
+            return result;
+        }
         self.protocol.remove_file(relpath).await
     }
 
     /// Delete a directory and all its contents.
     pub async fn remove_dir_all(&self, relpath: &str) -> Result<()> {
         self.record(Verb::RemoveDirAll, relpath);
+        #[cfg(feature = "verif_hooks")]
+        if let Some(result) = verif_hook::intercept(self, "remove_dir_all", relpath, None) {
+            return result;
+        }
         self.protocol.remove_dir_all(relpath).await
     }
 
@@ -317,6 +345,93 @@ impl Metadata {
 }
 
 type Result<T> = result::Result<T, Error>;
+
+/// Verification hook: a process-wide callback consulted before every storage operation.
+///
+/// Only compiled with the `verif_hooks` feature. The callback sees the verb, the path relative
+/// to the transport the archive was opened with, and the payload of writes. It may block (to let
+/// a deterministic scheduler interleave two actors), make the operation fail, or "stop the
+/// world": from then on every operation fails without touching storage, which leaves the
+/// archive exactly as a process killed at that point would.
+#[cfg(feature = "verif_hooks")]
+pub mod verif_hook {
+    use std::sync::{Arc, Mutex};
+
+    use super::{Error, ErrorKind, Transport};
+
+    /// What the callback wants done with the operation.
+    #[derive(Clone, Copy, Debug, PartialEq, Eq)]
+    pub enum Action {
+        /// Carry on normally.
+        Proceed,
+        /// Fail this operation with this kind, without touching storage.
+        Fail(ErrorKind),
+        /// Fail this and every later operation without touching storage (a crash before it).
+        Stop,
+        /// For a write: create the file empty, then behave as `Stop` (a crash inside the write).
+        EmptyThenStop,
+    }
+
+    pub type Callback = Arc<dyn Fn(&str, &str, Option<&[u8]>) -> Action + Send + Sync>;
+
+    static CALLBACK: Mutex<Option<Callback>> = Mutex::new(None);
+    static STOPPED: Mutex<bool> = Mutex::new(false);
+
+    /// Install (or with `None` remove) the callback, and clear the stopped state.
+    pub fn set_callback(callback: Option<Callback>) {
+        *CALLBACK.lock().unwrap() = callback;
+        *STOPPED.lock().unwrap() = false;
+    }
+
+    /// True once a `Stop` was delivered.
+    pub fn is_stopped() -> bool {
+        *STOPPED.lock().unwrap()
+    }
+
+    fn injected(kind: ErrorKind) -> Error {
+        Error {
+            kind,
+            source: None,
+            url: None,
+        }
+    }
+
+    pub(super) fn intercept(
+        transport: &Transport,
+        verb: &str,
+        relpath: &str,
+        content: Option<&[u8]>,
+    ) -> Option<Result<(), Error>> {
+        if *STOPPED.lock().unwrap() {
+            return Some(Err(injected(ErrorKind::Other)));
+        }
+        let callback = CALLBACK.lock().unwrap().clone()?;
+        let mut full_path = transport.sub_path.clone();
+        if !relpath.is_empty() {
+            if !full_path.is_empty() {
+                full_path += "/";
+            }
+            full_path += relpath;
+        }
+        match callback(verb, &full_path, content) {
+            Action::Proceed => None,
+            Action::Fail(kind) => Some(Err(injected(kind))),
+            Action::Stop => {
+                *STOPPED.lock().unwrap() = true;
+                Some(Err(injected(ErrorKind::Other)))
+            }
+            Action::EmptyThenStop => {
+                if verb == "write" {
+                    if let Some(path) = transport.local_path() {
+                        let _ = std::fs::write(path.join(relpath), b"");
+                    }
+                }
+                *STOPPED.lock().unwrap() = true;
+                Some(Err(injected(ErrorKind::Other)))
+            }
+        }
+    }
+}
 
 #[cfg(test)]
 mod test {
